@@ -257,7 +257,7 @@ def expectation(doc, ep, vec):
             exp["body_json"] = [x[1] for x in bv[1]]
         if ct.startswith("multipart/") and bv[0] == "model":
             fields = {}
-            declared = {"title", "count", "flag", "when", "kind", "tags", "meta", "ratio", "ref_or_text", "maybe_note", "stamp", "uid", "lvl"}
+            declared = {"title", "count", "flag", "when", "kind", "tags", "meta", "ratio", "ref_or_text", "maybe_note", "stamp", "uid", "lvl", "attachment"}
             for k, v in bv[2].items():
                 if isinstance(v, (dict, list)):
                     if k in declared:
@@ -268,6 +268,8 @@ def expectation(doc, ep, vec):
                     fields[k] = (None, "unspecified")      # null has no multipart representation the document could fix
                 else:
                     fields[k] = (epwork.wire_str(("j", v)).encode() if not isinstance(v, bool) else str(v).encode(), "text/plain")
+            for attr, hx in (bv[3] if len(bv) > 3 else {}).items():
+                fields[attr] = (bytes.fromhex(hx), "application/x-test")        # a File attribute: its bytes, under the declared name, with the File's own mime type
             exp["multipart_fields"] = fields
         if ct == "application/octet-stream" and bv[0] == "file":
             exp["raw_body_hex"] = bv[1]
@@ -379,6 +381,8 @@ def check_request(exp, call):
                             bad.append(f"multipart field {name!r} is not JSON: {b_[:80]!r}")
                     elif b_ != want:
                         bad.append(f"multipart field {name!r}: {b_[:80]!r} != {want!r}")
+                    elif wct not in ("text/plain",) and pct != wct:
+                        bad.append(f"multipart file part {name!r}: Content-Type {pct!r} != the File's mime type {wct!r}")
             for name in got:
                 if name not in exp["multipart_fields"]:
                     bad.append(f"undeclared multipart field {name!r} sent")
